@@ -96,6 +96,18 @@ def parse_fmt(v, where):
 
 WIDTH = {'B': 1, 'H': 2, 'L': 4, 'I': 4, 'Q': 8}
 
+# records whose python == is not structural equality (ChildSa holds Proposals, which compare as sets of transforms)
+PYEQ_RECS = {'ChildSa'}
+_PYEQ = {}
+
+
+def pyeq_fn(t):
+    if t.name not in _PYEQ:
+        so = sort_of(t)
+        _PYEQ[t.name] = z3.Function('pyeq_' + t.name, so, so, z3.BoolSort())
+    return _PYEQ[t.name]
+
+
 # opaque object kinds (Obj(kind) fields) whose class is a repository class
 OBJ_CLASSES = {'configuration': 'configuration.Configuration', 'rsapriv': 'crypto.RsaPrivateKey',
                'rsapub': 'crypto.RsaPublicKey'}
@@ -950,10 +962,40 @@ class Builtins:
         lists of records with structural equality: the result is prefix ++ suffix around a witness index"""
         if base.elem is None:
             return [Res(p, exc=VExc('ValueError'))]
+        pre = []
+        if isinstance(v, VOpt) and base.elem.kind != 'opt':
+            # None is not an element of a list of values
+            qn = p.fork()
+            if qn.assume(v.isnone, ('remove', node.lineno, 'none')):
+                pre.append(Res(qn, exc=VExc('ValueError')))
+            if not p.assume(z3.Not(v.isnone)):
+                return pre
+            v = v.val
+            return pre + self.list_remove(ex, base, v, p, node)
         zv = to_z3(v, base.elem)
         n = z3.Length(base.z)
         out = []
         q = p.fork()
+        if base.elem.kind == 'rec' and base.elem.name in PYEQ_RECS:
+            # first element that is python-equal to x (see list_contains)
+            eq = pyeq_fn(base.elem)
+            ja = z3.Int(fresh_name('j'))
+            q.add(eq(zv, zv))
+            p.add(eq(zv, zv))
+            out0 = []
+            if q.assume(z3.ForAll([ja], z3.Implies(z3.And(0 <= ja, ja < n), z3.Not(eq(base.z[ja], zv)))),
+                        ('remove', node.lineno, 'absent')):
+                out0.append(Res(q, exc=VExc('ValueError')))
+            w = z3.Int(fresh_name('rm'))
+            jb = z3.Int(fresh_name('j'))
+            p.add(z3.And(0 <= w, w < n, eq(base.z[w], zv)))
+            p.add(z3.ForAll([jb], z3.Implies(z3.And(0 <= jb, jb < w), z3.Not(eq(base.z[jb], zv)))))
+            new = z3.Concat(z3.Extract(base.z, I(0), w), z3.Extract(base.z, w + 1, n - w - 1))
+            p.add(z3.Length(new) == n - 1)
+            if p.feasible():
+                p.trail.append(('remove', node.lineno, 'found'))
+                out0.append(Res(p, (VList(base.elem, new), VNone)))
+            return out0
         if base.elem.kind == 'ref':
             ja = z3.Int(fresh_name('j'))
             absent = z3.ForAll([ja], z3.Implies(z3.And(0 <= ja, ja < n), ops.nth(base.z, ja, base.elem) != zv))
@@ -1011,6 +1053,25 @@ class Builtins:
                 return [Res(p, VBool(z3.And(z3.Not(a.isnone), self.ref_member(p, a.val.z, b.z))))]
             if isinstance(a, VRef):
                 return [Res(p, VBool(self.ref_member(p, a.z, b.z)))]
+        if b.elem is not None and b.elem.kind == 'rec' and b.elem.name in PYEQ_RECS:
+            # records whose python equality is coarser than structural equality (a CHILD_SA compares its proposals as
+            # sets of transforms): membership through the uninterpreted equivalence pyeq, of which only reflexivity is
+            # known; the witness position is a term
+            if a is VNone:
+                return [Res(p, VBool(z3.BoolVal(False)))]
+            notnone = z3.BoolVal(True)
+            if isinstance(a, VOpt):
+                notnone, a = z3.Not(a.isnone), a.val
+            eq = pyeq_fn(b.elem)
+            m = z3.Bool(fresh_name('member'))
+            w = z3.Int(fresh_name('at'))
+            j = z3.Int(fresh_name('j'))
+            n = z3.Length(b.z)
+            xz = to_z3(a, b.elem)
+            p.add(eq(xz, xz))
+            p.add(z3.Implies(m, z3.And(0 <= w, w < n, eq(b.z[w], xz))))
+            p.add(z3.Implies(z3.Not(m), z3.ForAll([j], z3.Implies(z3.And(0 <= j, j < n), z3.Not(eq(b.z[j], xz))))))
+            return [Res(p, VBool(z3.And(notnone, m)))]
         raise Unsupported(f'`in` on list of {b.elem} at {ex.where(node)}')
 
     def ref_member(self, p, x, l):
